@@ -517,6 +517,15 @@ func visitInstr(fr *frame, instr ssa.Instruction) continuation {
 			fr.set(instr, p)
 		case *viewptr:
 			fr.set(instr, x.indexAddr(in, mustDeref(instr.X.Type()), idx))
+		case *viewslice:
+			es := sizeofT(x.elem)
+			if idx < 0 || idx >= int64(x.n) {
+				panic(targetPanic{msg: fmt.Sprintf("runtime error: index out of range [%d] with length %d", idx, x.n)})
+			}
+			if (idx+1)*es > int64(len(x.base)) {
+				panic(targetPanic{msg: "runtime error: reinterpreted slice access beyond the backing array (undefined behaviour natively)"})
+			}
+			fr.set(instr, &viewptr{base: x.base[idx*es:], t: x.elem})
 		default:
 			panic(fmt.Sprintf("unexpected x type in IndexAddr: %T", x))
 		}
